@@ -616,6 +616,7 @@ cands = {
  'implicit_i18n_translate': ({'implicit_i18n_translate': True}, {'implicit_i18n_translate': False}, '<a>text</a>'),
  'trim_attribute_space': ({'trim_attribute_space': True}, {'trim_attribute_space': False}, '<a  x="1"\n   y="2"/>'),
  'body:non-ascii': ({'_body': '<p>Gr\u00fc\u00dfe</p>'}, {'_body': '<p>Gr\u00f6\u00dfe</p>'}, None),
+ 'filename:same-basename': ({'_paths': ['alpha/page.pt', 'beta/page.pt']}, {}, '<p>${1/0}</p>'),
  'body:crlf-xml': ({'_body': '<?xml version="1.0"?>\r\n<a>\r\n</a>'}, {'_body': '<?xml version="1.0"?>\n<a>\n</a>'}, None),
  'body:cr-xml': ({'_body': '<?xml version="1.0"?>\r<a>\r</a>'}, {'_body': '<?xml version="1.0"?>\n<a>\n</a>'}, None),
  'body:case': ({'_body': '<P>a</P>'}, {'_body': '<p>a</p>'}, None),
@@ -642,6 +643,23 @@ for attr in want:
     a, b, body = cands[attr]
     if repr(a) == repr(b): continue
     try:
+        if attr.startswith('filename:'):
+            # two FILE templates with identical text must not share a cache key unless they are the same file
+            import tempfile, shutil
+            from chameleon import PageTemplateFile
+            d = tempfile.mkdtemp(prefix='pyvc-digest-')
+            try:
+                pa, pb = [os.path.join(d, x) for x in a['_paths']]
+                for pth in (pa, pb):
+                    os.makedirs(os.path.dirname(pth), exist_ok=True)
+                    open(pth, 'w').write(body)
+                fa, fb = PageTemplateFile(pa), PageTemplateFile(pb)
+                names = ('macros', 'nothing', 'template')
+                if fa.digest(body, names) == fb.digest(body, names):
+                    out[attr] = {'files': a['_paths'], 'body': body, 'digest': fa.digest(body, names)}
+            finally:
+                shutil.rmtree(d, ignore_errors=True)
+            continue
         if body is None:
             # two different BODIES under the same configuration must get different keys
             ba, bb = a['_body'], b['_body']
